@@ -103,6 +103,20 @@ def _foreign_last(t):
     return (t[0], t[1], t[2], tuple(k + f))
 
 
+def _state(v, depth=0):
+    """plain-data picture of an instance (attributes, text, children, extension content), for before / after comparisons"""
+    from saml2_tophat import SamlBase, ExtensionElement
+    if depth > 40:
+        return '...'
+    if isinstance(v, (SamlBase, ExtensionElement)):
+        return (type(v).__name__, tuple((k, _state(x, depth + 1)) for k, x in sorted(v.__dict__.items())))
+    if isinstance(v, dict):
+        return tuple(sorted((str(k), _state(x, depth + 1)) for k, x in v.items()))
+    if isinstance(v, (list, tuple)):
+        return tuple(_state(x, depth + 1) for x in v)
+    return v if isinstance(v, (str, bytes, int, float, bool, type(None))) else repr(v)
+
+
 def alternative_serialisers(obj, s, clsname, foreign=False):
     """the other public routes from an object to XML must describe the same element as to_string(): conversion into extension content
     (element_to_extension_element, used for SOAP bodies, Extensions and encrypted assertions), to_string(nspair) and to_string_force_namespace(nspair)"""
@@ -110,6 +124,7 @@ def alternative_serialisers(obj, s, clsname, foreign=False):
     from saml2_tophat import element_to_extension_element
     norm = _foreign_last if foreign else (lambda t: t)
     base = norm(_et_shape(ET.fromstring(s)))
+    state0 = _state(obj)
     routes = [('element_to_extension_element', lambda: element_to_extension_element(obj).to_string()),
               ('to_string(nspair)', lambda: obj.to_string(dict(NSPAIR))),
               ('to_string_force_namespace', lambda: obj.to_string_force_namespace(dict(NSPAIR))),
@@ -127,6 +142,9 @@ def alternative_serialisers(obj, s, clsname, foreign=False):
         if shape != base:
             raise Violation('alternative-serialisation-differs', '%s: %s describes another element than to_string(): %s' % (clsname, name, _first_diff(_listify(base), _listify(shape))),
                             detail={'route': name})
+        if _state(obj) != state0:
+            raise Violation('serialiser-changes-instance', '%s: %s changed the instance it serialised (attributes / text / children of the object differ from before the call)'
+                            % (clsname, name), detail={'route': name})
         # producing text does not change the instance: its ordinary serialisation still describes the same element (the text may differ in prefix names: the
         # namespace-pair serialisers register their prefixes with ElementTree process-wide)
         try:
